@@ -73,6 +73,12 @@ def run(ctx):
                     return exact_inverse(upper("A0inv"))
                 if name in ("form_a_mat", "form_a_mat_inv"):
                     return Opaque("%s(%s)" % (name, vkey(args[0])), (3, 3))
+                if name == "ubi_to_cell":
+                    # ubi_to_cell(X) is a_to_cell(X') (C02 decides that): one opaque value for both spellings
+                    A_ = args[0] if isinstance(args[0], Arr) else materialise(args[0])
+                    if A_ is not None and len(A_.shape) == 2:
+                        T_ = Arr([[A_.data[j][i] for j in range(A_.shape[0])] for i in range(A_.shape[1])])
+                        return Opaque("a_to_cell(%s)" % vkey(T_), (6,))
                 if name in ("a_to_cell", "b_to_cell", "ubi_to_cell"):
                     return Opaque("%s(%s)" % (name, vkey(args[0])), (6,))
                 if name == "b_to_epsilon":
@@ -124,13 +130,22 @@ def run(ctx):
         log = []
         ev = Evaluator(mod, inline=set(), call_policy=pol_factory(log))
         out = ev.call_function("epsilon_to_b", [eps, cell])
-        invs = [(a, r) for (nm, a, r) in ev.np_log if nm == "linalg.inv"]
-        ok = len(invs) == 1 and out is invs[0][1]
+        # the matrix X whose inverse is returned -- by value: an inversion met on the way whose result is the value returned
+        # (inv(X), solve(X, 1), ...), otherwise the inverse of the value returned, computed here
         where = core.loc(mod, fn)
-        if not ok:
-            ctx.fail("C13:e2b:%s.epsilon_to_b:result" % short, "epsilon_to_b does not return inv(<the matrix it builds>)", where)
-        else:
-            X = mat(invs[0][0][0])
+        Xv = None
+        for (nm, a, r) in ev.np_log:
+            if nm == "linalg.inv" and (r is out or vkey(r) == vkey(out)):
+                Xv = a[0]
+        if Xv is None:
+            Rm = out if isinstance(out, Arr) else materialise(out)
+            if Rm is None or Rm.shape != (3, 3):
+                raise AnalysisError("%s.epsilon_to_b does not evaluate to an explicit 3x3 matrix" % short)
+            Xv = Evaluator(mod, inline=set()).np_call("linalg.inv", [Rm], {}, fn)
+            if not isinstance(Xv, Arr) or Xv._opaque_base() is not None:
+                raise AnalysisError("%s.epsilon_to_b: the inverse of the returned matrix has no closed form here" % short)
+        if True:
+            X = mat(Xv)
             tri = all(X[i][j].is_zero() for i in range(3) for j in range(i))
             ctx.check(tri, "C13:e2b:%s.epsilon_to_b:triangular" % short, "the matrix inverted is not upper triangular", where)
             P = mm(B0, X)
@@ -254,7 +269,8 @@ def run(ctx):
         if len(bcalls_) != 1:
             # the strain is computed some other way than by one call of b_to_epsilon: this rule reads the matrix handed to that call
             raise AnalysisError("%s.ubi_to_u_and_eps: the strain is not obtained from one call of b_to_epsilon (calls: %s)" % (short, names))
-        dcell = "ubi_to_cell(%s)" % vkey(ubi)
+        ubim_ = materialise(ubi)
+        dcell = "a_to_cell(%s)" % vkey(Arr([[ubim_.data[j][i] for j in range(3)] for i in range(3)]))
         okU = True          # (the opaque values of ubi_to_cell / form_b_mat carry their arguments: comparing U covers those calls)
         Bd = Opaque("form_b_mat(%s)" % dcell, (3, 3))
         Uwant = N.ref("transpose(dot(B, X))/tau", {"B": Bd, "X": ubi, "tau": tau})
@@ -289,7 +305,8 @@ def run(ctx):
                   "b_to_epsilon is not called with the unstrained unit_cell / its result is not returned", where)
     ctx.not_decided += ["numerical accuracy of inv; that the two maps are mutual inverses follows on paper from the verified "
                         "equation (uniqueness of the triangular solution) and inv(inv(X)) = X"]
-    ctx.assumptions += ["form_b_mat / form_a_mat_inv return upper-triangular matrices (C01)", "numpy dot, transpose, inv, eye"]
+    ctx.assumptions += ["form_b_mat / form_a_mat_inv return upper-triangular matrices (C01)", "numpy dot, transpose, inv, eye",
+                        "ubi_to_cell(X) is a_to_cell(transpose(X)) (C02)"]
     from xfabsa import numeric as _N2
     _N2.hazard_rule(ctx, 'C13')
     return ("b_to_epsilon(_old) compared with sym(T) - I literally; the matrices built by epsilon_to_b(_old) shown to solve "
